@@ -16,13 +16,16 @@ par g++ -c $CF $H/c02_main_large.cpp -o $BUILD/main_large.o
 par g++ -c $CF -Wno-return-local-addr $H/c02_main_flat.cpp -o $BUILD/main_flat.o
 par g++ -c $CF -DTWIN_HAS_ERASE_RANGE=$TW $H/c02_twin.cpp -o $BUILD/twin.o
 par g++ -c $CF -Wno-return-local-addr $H/c02_shim.cpp -o $BUILD/shim.o
-par g++ -c $CF -Wno-return-local-addr $H/c02_flatvec.cpp -o $BUILD/flatvec.o
+# flat_map / flat_set over igris::vector: they may legitimately use a std::vector member igris::vector does not
+# have (then an embedded build could not compile them either - not a statement of this property); the run is
+# left out instead of failing the whole build
+par sh -c "g++ -c $CF -Wno-return-local-addr $H/c02_flatvec.cpp -o $BUILD/flatvec.o 2>$BUILD/flatvec.log || { rm -f $BUILD/flatvec.o; echo 'note: flat_map/flat_set do not compile over igris::vector; run flat_on_igris_vector skipped'; }"
 par g++ -std=c++17 -O2 -c -I$MC $MC/mc.cpp -o $BUILD/mc.o
 parwait
 par g++ -fsanitize=address $BUILD/main.o $BUILD/main_large.o $BUILD/main_flat.o $BUILD/mc.o -o $BUILD/c02_main
 par g++ -fsanitize=address $BUILD/twin.o $BUILD/mc.o -o $BUILD/c02_twin
 par g++ -fsanitize=address $BUILD/shim.o $BUILD/mc.o -o $BUILD/c02_shim
-par g++ -fsanitize=address $BUILD/flatvec.o $BUILD/mc.o -o $BUILD/c02_flatvec
+[ -f $BUILD/flatvec.o ] && par g++ -fsanitize=address $BUILD/flatvec.o $BUILD/mc.o -o $BUILD/c02_flatvec
 parwait
 # one run per group of sub-checks: the driver gives every run an equal share of the deadline
 {
@@ -31,10 +34,13 @@ echo "vector_tracked $BUILD/c02_main --only vector_tracked"
 echo "vector_3values $BUILD/c02_main --only vector_3values"
 echo "flat $BUILD/c02_main --only flat_"
 echo "vector_large $BUILD/c02_main --only large_"
+echo "vector_extra $BUILD/c02_main --only extra_"
 echo "portable_vector_int $BUILD/c02_twin --only vector_int"
 echo "portable_vector_tracked $BUILD/c02_twin --only vector_tracked"
 echo "portable_vector_3values $BUILD/c02_twin --only vector_3values"
 echo "portable_vector_large $BUILD/c02_twin --only large_"
+echo "portable_vector_extra $BUILD/c02_twin --only extra_"
 echo "compat_shims $BUILD/c02_shim"
-echo "flat_on_igris_vector $BUILD/c02_flatvec"
+[ -f $BUILD/flatvec.o ] && echo "flat_on_igris_vector $BUILD/c02_flatvec"
+true
 } > $BUILD/runs.txt
